@@ -1,2 +1,70 @@
-(* Props/C02.v — property theorems of C02 (filled in as proofs land). *)
-From MV Require Import Base.Strs Syntax.Lexer Syntax.Parser Syntax.Yield.
+(* Props/C02.v — the property theorems of C02 (parsing is total, lossless and
+   position-accurate), about the model coq/Syntax/{Lexer,Parser}.v of mesonbuild/mparser.py. *)
+From MV Require Import Base.Strs Syntax.Lexer Syntax.Parser Syntax.Yield
+  Syntax.LexerFacts Syntax.ParserFacts.
+
+(* Lossless lexing: the texts of the tokens of an accepted input concatenate to the input. *)
+Theorem C02_lex_lossless : forall s ts, lex s = LOk ts -> concat (map ttext ts) = s.
+Proof. exact lex_lossless. Qed.
+Print Assumptions C02_lex_lossless.
+
+(* Position accuracy of tokens: each token records the line (1 + newlines before it), the
+   column (characters since the last newline) and the offset of the point where it starts. *)
+Theorem C02_token_positions : forall s ts, lex s = LOk ts -> positions_ok [] ts.
+Proof. exact lex_positions. Qed.
+Print Assumptions C02_token_positions.
+
+(* A lexing error is located at the point where lexing stopped, inside the text: what was
+   consumed is a prefix of the text and the reported line/column is that prefix's end. *)
+Theorem C02_lex_error_located : forall s ts l c,
+  lex_prefix (length s) s init_lst = (ts, Some (l, c)) ->
+  exists rest, rest <> [] /\ s = concat (map ttext ts) ++ rest /\
+               l = line_of (concat (map ttext ts)) /\ c = col_of (concat (map ttext ts)).
+Proof.
+  intros s ts l c H.
+  exact (lex_prefix_error (length s) s init_lst [] ts l c (le_n _) Inv_init H).
+Qed.
+Print Assumptions C02_lex_error_located.
+
+(* No token is empty (the lexer always makes progress; its fuel never runs out). *)
+Theorem C02_tokens_nonempty : forall fuel s st ts e,
+  lex_prefix fuel s st = (ts, e) -> Forall (fun t => ttext t <> []) ts.
+Proof. exact lex_prefix_nonempty. Qed.
+Print Assumptions C02_tokens_nonempty.
+
+(* Token conservation: the tree of an accepted token stream lists exactly the stream —
+   no token is dropped, duplicated or moved (for every fuel, every state). *)
+Theorem C02_token_conservation : forall fuel st b,
+  Forall (fun t => tk t <> KEof) (toks st) ->
+  parse_tokens fuel st = Ok b -> toks st = yield_block b.
+Proof. exact parse_tokens_conserves. Qed.
+Print Assumptions C02_token_conservation.
+
+(* An input on which the lexer fails is never accepted. *)
+Theorem C02_no_accept_after_lex_error : forall fuel st b,
+  Forall (fun t => tk t <> KEof) (toks st) -> toks st <> [] ->
+  parse_tokens fuel st = Ok b -> lexerr st = None.
+Proof. exact parse_tokens_needs_whole_lex. Qed.
+Print Assumptions C02_no_accept_after_lex_error.
+
+(* Text to tree: an accepted text was lexed completely, its token texts concatenate to it
+   byte for byte, every token has its true position, and the tree contains exactly its
+   significant tokens in order (whitespace and comments are the remaining tokens). *)
+Theorem C02_parse_lossless : forall s b,
+  parse s = Ok b ->
+  exists ts, lex s = LOk ts /\ concat (map ttext ts) = s /\ positions_ok [] ts /\
+             significant ts = yield_block b.
+Proof. exact parse_lossless. Qed.
+Print Assumptions C02_parse_lossless.
+
+(* RawPrinter emits positional arguments before keyword arguments; that is the source
+   order whenever no positional argument follows a keyword argument ... *)
+Theorem C02_raw_order_partial : forall a, args_order_ok a = true -> raw_order a = a.
+Proof. exact raw_order_id. Qed.
+Print Assumptions C02_raw_order_partial.
+(* ... and the unguarded statement is false for the shipped parser (known finding
+   C02:not-lossless:keyword-argument-before-positional). *)
+Theorem C02_raw_order_refuted :
+  exists b, parse (s2l "f(a: 1, b)") = Ok b /\ order_ok_block b = false.
+Proof. exact order_error_accepted. Qed.
+Print Assumptions C02_raw_order_refuted.
